@@ -42,6 +42,7 @@ def cases(rng, tier):
     n = 700 if tier == 'quick' else 6000
     out += C.build_cases(rng, n, calls_per=3, profile='incomplete', style='kw', tag='c06a')
     out += C.build_cases(rng, n // 4, calls_per=2, profile='incomplete', style=None, tag='c06b')
+    out += C.scenario_cases(rng, n // 8, tag='c06sc')
     return out
 
 
